@@ -21,9 +21,9 @@ CHECKS = {
             "a CklSyntaxError with message and position; budget exhaustion confirmed by the "
             "pristine run is reported as non-termination. Every seed program is also placed inside the list / comprehension positions whose syntax-error message renders the parsed node (node rendering must not raise); string-literal tokens whose content is punctuation, an operator or a keyword are part of the token alphabet. Pattern and literal pool includes incompatible regex flags and literals beyond the host's int <-> str digit limit."),
     "C15": ("DESIGN.md C15",
-            "All index arguments are symbolic integers (quick [-9,9], thorough [-40,40]) and the "
-            "searched sequences are symbolic over a 3-symbol alphabet; sequence lengths 0..4 "
-            "(thorough 0..6). Every feasible path of NodeDeref/NodeDerefAssign/NodeDerefSlice/"
+            "All index arguments are symbolic integers (quick [-12,12], thorough [-48,48]) and the "
+            "searched sequences are symbolic over a 3-symbol alphabet; sequence lengths 0..5 "
+            "(thorough 0..7). Every feasible path of NodeDeref/NodeDerefAssign/NodeDerefSlice/"
             "substr/sublist/find/find_last/insert_at/delete_at is executed and compared with the "
             "sequence model by solver obligations; exhaustive within the bounds. Lists in the positional operations have symbolic, possibly equal elements. The element taken out by s[i] is changed in place and the string read again. find_last with an explicit start."),
     "C17": ("DESIGN.md C17",
@@ -96,7 +96,7 @@ CHECKS["C18"] = ("DESIGN.md C18",
     "all scalar values, join/unlines/unwords/q, s() with every format suffix and sprintf with "
     "symbolic surrounding text and values. split/escape_pattern/join inverse goes through the C re "
     "module and is a finite-domain enumeration (13 separators incl. every regex metacharacter, "
-    "subjects over separator characters and 'a' up to length 3/4). Adjacent placeholders with possibly empty values; join with empty parts.")
+    "subjects over separator characters and 'a' up to length 3/4). Adjacent placeholders with possibly empty values; join with empty parts. sprintf on six templates (two-digit placeholder indices, text that only looks like a placeholder start).")
 
 CHECKS["C19"] = ("DESIGN.md C19",
     "sum/prod/reduce/reverse/zip/enumerate/pairs/chunks/flatten/filter/map_list/range/interval/"
@@ -126,7 +126,7 @@ CHECKS["C16"] = ("DESIGN.md C16",
     "non-mutating library calls) read back and compared with a reference heap model; 18 "
     "result-independence programs. The quantification over functions/kinds/operation sequences is "
     "an enumeration driven by the solver; the solver's own contribution is path coverage inside "
-    "each call. Prototype chains: member assignment changes exactly the targeted object. Functions that draw random numbers run under 4 seeds with lists in which a draw repeats; literals (defaults, bodies, comprehension items) are fresh values per evaluation.")
+    "each call. Prototype chains: member assignment changes exactly the targeted object. Functions that draw random numbers run under 4 seeds with lists in which a draw repeats; literals (defaults, bodies, comprehension items) are fresh values per evaluation. Positional mutators (insert_at, delete_at, element assignment) with a symbolic index in [-9,9] (thorough [-24,24]) through an alias, read back through every alias and an equal but distinct list.")
 
 CHECKS["C05"] = ("DESIGN.md C05",
     "12 (thorough 15) template shapes of do/catch v/catch all/finally nests (depth 2, thorough 3) at "
@@ -154,7 +154,7 @@ CHECKS["C03"] = ("DESIGN.md C03",
     "environment chains; Args.setArgs for 0..3 parameters, optional rest parameter and up to 3 "
     "(thorough 4) arguments each positional or named (p0/p1/p2/unknown) against the binding model; "
     "27 call forms (named, defaults, rest, list/map spread, pipeline, method calls with prototype "
-    "chains) with symbolic argument values. Defaults are exercised across several calls (a fresh value per call). The same identifier occurrence is evaluated before and after a nearer definition appears, through factories with / without a local and through recursion. Spread arguments followed by named arguments in every call form.")
+    "chains) with symbolic argument values. Defaults are exercised across several calls (a fresh value per call). The same identifier occurrence is evaluated before and after a nearer definition appears, through factories with / without a local and through recursion. Spread arguments followed by named arguments in every call form. Destructuring assignment with targets at symbolically chosen scope levels in both orders.")
 
 CHECKS["C12"] = ("DESIGN.md C12",
     "98 driver programs send sets of strings through every iteration/conversion/spread/destructuring/"
@@ -166,7 +166,7 @@ CHECKS["C12"] = ("DESIGN.md C12",
     "(any order) over-approximates CPython's actual orders. Sets of mixed scalars, sorted() with ties under key/cmp, and sorted-order expectations for spread/destructuring. Maps with non-string keys (passed positionally when spread into a call) under every construction order. Operators with a set operand; comprehensions and loops whose result depends on the enumeration order of a set source.")
 
 CHECKS["C10"] = ("DESIGN.md C10",
-    "Histories of 3 (thorough 4) commands over a 24-command alphabet (define, assign, read, call, "
+    "Histories of 3 (thorough 4) commands over a 33-command alphabet (define, assign, read, call, "
     "failing expressions, syntax errors, require of good/missing/broken/syntactically broken/circular/"
     "nested-failing user modules on a real scratch module path, loop aborted by an error), every "
     "command chosen by a symbolic selector, issued to one or two interleaved fresh Interpreter "
@@ -174,7 +174,7 @@ CHECKS["C10"] = ("DESIGN.md C10",
     "commands are repeated and must fail identically, the module load stack must be empty between "
     "calls. Plus the one-step check per require outcome (stack restored, module cached iff its body "
     "completed). This is a finite enumeration driven by the solver; the inductive step for the module "
-    "stack is what extends to histories of any length. Class definitions, a failing redefinition and their observers are part of the command alphabet.")
+    "stack is what extends to histories of any length. Class definitions, a failing redefinition and their observers are part of the command alphabet. Functions without parameters that make local definitions (one returning, one failing) and a read of their local are part of the alphabet.")
 
 CHECKS["C11"] = ("DESIGN.md C11",
     "Unit level: NodeRequire.evaluate on a pre-seeded module cache whose symbol table is up to 3 "
@@ -185,7 +185,7 @@ CHECKS["C11"] = ("DESIGN.md C11",
     "chosen by symbolic selectors over 12 forms against real user modules (chain, diamond, 2-cycle, "
     "self-require, private/public mix, shadowing): each body runs at most once, all importers share "
     "one instance, module code cannot see importer variables, cycles are errors, private names are "
-    "unreachable. Finite-domain enumeration driven by the solver. A module with public mutable data is required again after its state changed or after an importer wrote to its module object. A module body starts at most once per require (cycles closing on the outermost module).")
+    "unreachable. Finite-domain enumeration driven by the solver. A module with public mutable data is required again after its state changed or after an importer wrote to its module object. A module body starts at most once per require (cycles closing on the outermost module). The unit part's symbol pool also holds a plain object and a list as public values.")
 
 CHECKS["C09"] = ("DESIGN.md C09",
     "bind_native(name[, alias]) through the interpreter with the native name symbolic over all 122 "
